@@ -16,7 +16,7 @@ KINDS = ['plain', 'indexed', 'validating']
 # observers: (name, level, needs-arg)
 PARSER_OBS = ['getHTML', 'getFormattedHTML', 'getMiniHTML', 'asHTML', 'getRoot', 'getRootNodes', 'getAllNodes', 'body', 'head', 'forms',
               'byTagName', 'byName', 'byClassName', 'byClassNames2', 'byClassNames3', 'byAttr', 'withAttrValues', 'byId', 'customFilter', 'firstCustomFilter',
-              'find', 'filter', 'filterOr', 'xpath', 'contains', 'containsUid', 'pickle', 'formatterOverOutput', 'reprParser']
+              'find', 'filter', 'filterOr', 'xpath', 'contains', 'containsUid', 'pickle', 'copyParser', 'deepcopyParser', 'formatterOverOutput', 'reprParser']
 ELEM_OBS = ['outerHTML', 'innerHTML', 'innerText', 'textContent', 'text', 'str', 'repr', 'getStartTag', 'getEndTag', 'toHTML',
             'getAttribute', 'hasAttribute', 'attrItems', 'attrKeys', 'attrValues', 'attrIter', 'attrLen', 'attrRepr', 'attrStr', 'attrIn', 'attrGet', 'attrSubscript', 'attrSubscriptMissing', 'attrNodeMap',
             'attributesList', 'attributesDict', 'getAttributesList', 'getAttributesDict', 'className', 'classList', 'classNames', 'hasClass',
@@ -153,6 +153,8 @@ class C16(core.Check):
                 'xpath': lambda: p.getElementsByXPathExpression(XPATHS[int(b * len(XPATHS)) % len(XPATHS)]),
                 'contains': lambda: p.contains(e), 'containsUid': lambda: p.containsUid(e.uid),
                 'pickle': lambda: len(pickle.dumps(p, protocol=int(b * 6) % 6)) > 0,
+                'copyParser': lambda: (keep.append(copy.copy(p)), keep[-1].getHTML() == p.getHTML())[1],
+                'deepcopyParser': lambda: (keep.append(copy.deepcopy(p)), keep[-1].getHTML() == p.getHTML())[1],
                 'formatterOverOutput': lambda: self._fmt(p.getHTML(), b), 'reprParser': lambda: (len(repr(p)) > 0, len(str(p)) > 0),
             }[name]
         elif level == 'E':
@@ -252,11 +254,21 @@ class C16(core.Check):
                 return 'observer #%d %s/%s changed the document it observed: %s' % (i, op[0], op[1], self._diff(before, after)), results, None
             if after_q != before_q:
                 return 'observer #%d %s/%s changed an unrelated document' % (i, op[0], op[1]), results, None
+        # the document the caller still holds (its root and elements) when the parser goes on to parse something else
+        old_root = p.getRoot()
+        old_els = pc.preorder(old_root)
+        old_state = [(id(e), e.uid, id(e.parentNode) if e.parentNode is not None else None, id(e.ownerDocument) if e.ownerDocument is not None else None,
+                      e.tagName, tuple(id(c) for c in e.children), e.text) for e in old_els]
+        old_html = old_root.outerHTML
         try:
             p.parseStr(case['again'])
             reuse = 'ok:' + p.getHTML()
         except Exception as ex:
             reuse = 'exc:' + core.exc_name(ex)
+        new_state = [(id(e), e.uid, id(e.parentNode) if e.parentNode is not None else None, id(e.ownerDocument) if e.ownerDocument is not None else None,
+                      e.tagName, tuple(id(c) for c in e.children), e.text) for e in old_els]
+        if new_state != old_state or old_root.outerHTML != old_html:
+            return 'parsing another document with the same parser changed the document parsed before (identity / uid / parent / owner / children / text)', results, reuse
         if not reuse.startswith('ok:'):
             return 'after the observers the parser cannot parse another document: %s' % reuse, results, reuse
         fresh = self._mk(case['kind'])
